@@ -8,7 +8,7 @@
    timeout T30 > 0 (the code has cap = 1 for a pairing's connection and T30 = 30 s = 122880 ticks).
    [trace es] is the list of outputs of the history, [final es] the state after it. *)
 From Coq Require Import List NArith Arith Bool Lia Sorted Permutation.
-From AHK Require Import Model.Disp Proofs.Disp Proofs.DispTrace Model.DispConn Proofs.DispConn.
+From AHK Require Import Model.Disp Proofs.Disp Proofs.DispTrace Model.DispConn Proofs.DispConn Proofs.DispRace.
 Import ListNotations.
 
 Section C08.
@@ -115,6 +115,34 @@ Theorem abandon_on_failure_late_issue : forall es1 es2, opened (final es1) = fal
     = [ODone (next (final (es1 ++ es2))) Disconnected (clock (final (es1 ++ es2)))].
 Proof. exact (late_issue_thm cap T30). Qed.
 
+(* ---- same-turn timeout + cancellation (round 9) ---------------------------------------
+   The 30 s timer of the oldest written request fires and a caller's task is cancelled in the SAME
+   loop iteration (timer first; in the code: future done-not-cancelled, CancelledError in
+   _send_lines).  Model: [Advance dt] then [Cancel r'].  Whatever r' is, the cancellation cannot
+   undo or soften the abandonment: after the timeout step the connection is closed, nothing is in
+   flight or queued, the timed-out request has completed at write+T30, [Cancel r'] changes nothing
+   and outputs nothing, and the next request is refused at once without being written. *)
+Theorem abandon_on_timeout_cancel_same_turn : forall es r wt rest dt,
+    inflight (final es) = (r, wt) :: rest -> (wt + T30 <= clock (final es) + dt)%N ->
+    let s' := fst (step (final es) (Advance dt)) in
+    opened s' = false /\ inflight s' = [] /\ waiters s' = [] /\
+    In (ODone r TimedOut (wt + T30)) (snd (step (final es) (Advance dt))) /\
+    (forall r', step s' (Cancel r') = (s', [])) /\
+    snd (step s' Issue) = [ODone (next s') Disconnected (clock s')].
+Proof. intros es r wt rest dt. exact (timeout_then_cancel cap T30 cap_pos T30_pos (final es) r wt rest dt (final_Inv cap T30 cap_pos T30_pos es)). Qed.
+
+Theorem abandon_on_timeout_cancel_history : forall es r wt rest dt r',
+    inflight (final es) = (r, wt) :: rest -> (wt + T30 <= clock (final es) + dt)%N ->
+    final (es ++ [Advance dt] ++ [Cancel r']) = final (es ++ [Advance dt]) /\
+    opened (final (es ++ [Advance dt] ++ [Cancel r'])) = false /\
+    snd (step (final (es ++ [Advance dt])) (Cancel r')) = [].
+Proof. exact (timeout_cancel_history cap T30 cap_pos T30_pos). Qed.
+
+(* on an abandoned connection a cancellation (of a caller that has necessarily completed) is a no-op *)
+Theorem cancel_after_abandon_is_noop : forall es r, opened (final es) = false ->
+    step (final es) (Cancel r) = (final es, []).
+Proof. intros es r. exact (cancel_when_closed_noop cap T30 (final es) r (final_Inv cap T30 cap_pos T30_pos es)). Qed.
+
 (* ---- unsolicited response -----------------------------------------------------------
    An HTTP message read while nothing is in flight makes data_received raise (pop(0) on an
    empty list); the transport layer force-closes the connection; no caller receives the
@@ -212,6 +240,14 @@ Example c08_history_cap2 :
   Disp.trace 2 T30c [Issue; Issue; Issue; Data [(KHttp, 1%N); (KHttp, 2%N); (KHttp, 3%N)]]
   = [OWrote 0 0; OWrote 1 0; ODone 0 (Resp 1) 0; ODone 1 (Resp 2) 0; OCrash 0; ODone 2 Disconnected 0; OClosed 0].
 Proof. vm_compute. reflexivity. Qed.
+
+(* timer and cancellation of the same caller in one loop turn, then a new request and a late response:
+   the connection is abandoned at 30 s, the new request is refused, the late response reaches nobody *)
+Example c08_history_timeout_cancel :
+  Disp.trace 1 T30c [Issue; Issue; Advance 122880; Cancel 0; Issue; Data [(KHttp, 60%N)]]
+  = [OWrote 0 0; ODone 0 TimedOut 122880; ODone 1 Disconnected 122880; OClosed 122880; ODone 2 Disconnected 122880]
+  /\ inflight (Disp.final 1 T30c [Issue; Issue]) = [(0, 0%N)].
+Proof. vm_compute. split; reflexivity. Qed.
 
 (* the hypotheses of the step theorems are met by reachable states *)
 Example c08_nonvacuous :
@@ -315,6 +351,9 @@ Print Assumptions event_exactly_once.
 Print Assumptions event_step_is_only_a_delivery.
 Print Assumptions abandon_on_cancel.
 Print Assumptions abandon_on_timeout.
+Print Assumptions abandon_on_timeout_cancel_same_turn.
+Print Assumptions abandon_on_timeout_cancel_history.
+Print Assumptions cancel_after_abandon_is_noop.
 Print Assumptions abandon_on_peer_close.
 Print Assumptions abandon_on_local_close.
 Print Assumptions abandon_on_failure.
